@@ -169,3 +169,53 @@ def r5(cx):
     cx.ok("footer decode order: %s" % [c.where() for c in sorted(hd, key=lambda c: c.bb)], fd.where())
     from .c12 import _enum_decoder
     _enum_decoder(cx, "sstable::table::TableFormat", "sstable::table::TableFormat::from_u8")
+
+
+@rule("C13", "C13.R6", "a bloom filter is read with the parameters stored in it, never with the reader's configuration")
+def r6(cx):
+    """The number of probes is written into the filter's last byte so that a reader configured differently (another
+    bits_per_key, a later default) still tests exactly the bits the writer set; probing more bits than were set turns
+    `may_contain` into `false` for keys that are present, and a point lookup then skips the table.  Decided: the probe
+    loop bound of every FilterPolicy::may_contain derives from the filter bytes and from no field of the policy object;
+    the writer stores its probe count as the last byte."""
+    f = cx.f
+    ms = [b for b in f.scan_bodies() if b.name == "may_contain" and b.impl_trait and b.impl_trait.endswith("FilterPolicy") and not b.file.endswith("mod.rs")]
+    ms = [b for b in ms if f.may_reach(b.id, "bloom_hash") or any("bloom" in b.file for _ in [0])]
+    cx.floor("bloom may_contain implementations", len(ms), 1)
+    for b in ms:
+        R, W = self_field_sites(f, b, callee_writes="may")
+        rng = []
+        for i, j, lhs, rv, line in b.assigns():
+            if i in b.live and rv[0] == "agg" and rv[3] and rv[3].get("adt", "").endswith("ops::Range") and len(rv[2]) == 2:
+                rng.append((i, rv[2][1], line))
+        cx.floor("probe loops in %s" % b.id, len(rng), 1)
+        fparam = [i for i in range(2, b.argc + 1) if b.local_name(i) == "filter"] or [2]
+        for i, endop, line in rng:
+            o = origin_of_operand(b, endop)
+            from_filter = any(p[0] == fparam[0] for p in o.params)
+            from_self = any(p[0] == 1 for p in o.params) or bool(set(R) & {x[1] for x in o.fields})
+            cx.check(from_filter and not from_self, "`%s`: the probe count comes from the filter bytes" % b.id, "bloom-probe-count-source|%s" % b.id, "%s:%d" % (b.file, line),
+                     "`%s` probes with a count that does not come from the filter itself (%s): a filter written with fewer probes than the reader's configuration "
+                     "reports present keys as absent, and Table::get skips the table" % (b.id, "policy field" if from_self else "other source"))
+    cs = [b for b in f.scan_bodies() if b.name == "create_filter" and b.impl_trait and b.impl_trait.endswith("FilterPolicy") and "bloom" in b.file]
+    cx.floor("bloom create_filter implementations", len(cs), 1)
+    for b in cs:
+        # the probe count used by the writer's own loop is stored (outside the loops) through an indexed write / push
+        ends = []
+        for i, j, lhs, rv, line in b.assigns():
+            if i in b.live and rv[0] == "agg" and rv[3] and rv[3].get("adt", "").endswith("ops::Range") and len(rv[2]) == 2 and b.in_cycle(i):
+                ends.append(origin_of_operand(b, rv[2][1]))
+        kcalls = set()
+        for o in ends:
+            kcalls |= {id(c) for c in o.calls}
+        stored = False
+        for i, j, lhs, rv, line in b.assigns():
+            if i in b.live and not b.in_cycle(i) and len(lhs) >= 2 and lhs[1] == "*" and rv[0] in ("use", "cast"):
+                po = origin_of_operand(b, ["c", [lhs[0]]])
+                vo = origin_of_operand(b, rv[1] if rv[0] == "use" else rv[2])
+                if any(c.primary.endswith("index_mut") for c in po.calls) and ({id(c) for c in vo.calls} & kcalls):
+                    stored = True
+        for c in b.calls:
+            if c.bb in b.live and not b.in_cycle(c.bb) and c.primary.endswith("Vec::push") and len(c.args) > 1 and ({id(x) for x in origin_of_operand(b, c.args[1]).calls} & kcalls):
+                stored = True
+        cx.check(stored, "`%s` stores the probe count it used in the filter" % b.id, "bloom-k-not-stored|%s" % b.id, b.where())
